@@ -57,8 +57,8 @@ RULE = ('cases: (gen) composites of 1-6 probe processes/steps in nested groups w
         'undeclared ports, wrong-shaped states, paths above the root). Non-trivial: at least two '
         'declarations meet on one node, or a glob child is created, or the initial state overrides '
         'a declared default. Distinct by canonical JSON of the case.')
-TRUSTED = ['CPython dict ordering, `==` on plain values and `set` iteration order (modelled, not '
-           'verified; the walk order of `set(processes.keys() | steps.keys())` is an input of the model)',
+TRUSTED = ['CPython dict ordering and `==` on plain values (modelled, not verified; the walk order of the processes '
+           'and steps of a composite level — declaration order since fix c6db333 — is an input of the model)',
            'pint unit equality and the registries\' contents (read from the implementation at run time)']
 ASSUMPTIONS = [
     'no wiring leads through a process node (topology redirection in _establish_path is outside the model)',
@@ -549,11 +549,12 @@ def split_tree(tree, want_step):
 
 
 def ordered_union(procs, steps):
-    """processes and steps of one level merged in the order in which
-    `_get_composite_state_recur` walks `set(processes.keys() | steps.keys())`"""
+    """processes and steps of one level merged in the order in which `_get_composite_state_recur` walks them:
+    declaration order, processes first, then the steps not already named (since fix c6db333; it used to be the
+    iteration order of a set of the names, which depends on the hash seed — finding F44)"""
     pd = {k: v for k, v in procs}
     sd = {k: v for k, v in steps}
-    keys = list(set(pd.keys() | sd.keys()))
+    keys = list(pd.keys()) + [k for k in sd.keys() if k not in pd]
     out = []
     for k in keys:
         p, s = pd.get(k), sd.get(k)
@@ -1599,3 +1600,9 @@ TECHNIQUE = ('Lean 4 proof (invariants over folds of declarations, induction ove
 from harness import schemaleak as _sl          # noqa: E402
 from harness.mixins import add_family as _add_family   # noqa: E402
 _add_family(globals(), _sl, 'schemaleak', lambda case, impl: _sl.oracle(case, impl, who=('values',)), share=0.02)
+
+
+# competing initial values are merged in declaration order, whatever the hash seed (F44)
+from harness import initorder as _io                    # noqa: E402
+from harness.mixins import add_family as _add_family    # noqa: E402
+_add_family(globals(), _io, 'initorder', _io.oracle, share=0.01)
